@@ -159,7 +159,7 @@ var benignPrefixes = []string{
 	"(error).Error", "(*echo.HTTPError).", "(*sync.WaitGroup).", "(*sync.Once).",
 	"url.", "(*url.URL).", "filepath.", "path.", "os.Getenv", "(fmt.Stringer).",
 	"(context.Context).", "context.", "(*context.",
-	"uuid.", "(uuid.UUID).", "runtime.", "debug.",
+	"uuid.", "(uuid.UUID).", "runtime.", "debug.", "reflect.TypeOf", "(reflect.Type).",
 	"(*bus.", "log.",
 }
 
